@@ -194,6 +194,8 @@ def explore(lab, scs, label, settle_ms=5000, idle_ms=0, rerun_done=False):
         suspects = res["in_flight"] or res["began"][-24:]
         culprits = []
         for sid in suspects[:40]:
+            if len(deaths) >= 8:
+                break
             one = run_child(lab, [byid[sid]], "%s-one" % label, 1500, 0, par=1)
             if one["report"] is None or one["rc"] != 0:
                 banner, site = death_banner(one["stderr"])
